@@ -344,7 +344,19 @@ pub fn parse_ts_lit(s: &str) -> TsLit {
     })();
     if let Some(p) = parsed {
         if p[5] == 60 { return TsLit::Maybe(ts_from_parts(p[0], p[1], p[2], p[3], p[4], 59, 0).map(|t| t + 1_000_000)); }
-        return TsLit::Maybe(ts_from_parts(p[0], p[1], p[2], p[3], p[4], p[5], 0));
+        // Which of these non-canonical spellings are literals is defined by nothing but the date library the project uses
+        // (chrono's `%Y-%m-%d %H:%M:%S`: it takes some of them and refuses others). The library itself is the reference
+        // here: what it reads must be read (as that instant), what it refuses is no literal. The canonical spelling above
+        // is judged by the harness' own calendar.
+        return match chrono::NaiveDateTime::parse_from_str(s, "%Y-%m-%d %H:%M:%S") {
+            Ok(_) => match ts_from_parts(p[0], p[1], p[2], p[3], p[4], p[5], 0) { Some(t) => TsLit::Exact(t), None => TsLit::Maybe(None) },
+            Err(_) => TsLit::No,
+        };
+    }
+    // spellings outside the recogniser above that the library nevertheless reads: its instant (seconds 60 apart: leap notation)
+    if let Ok(n) = chrono::NaiveDateTime::parse_from_str(s, "%Y-%m-%d %H:%M:%S") {
+        let us = n.and_utc().timestamp_micros();
+        return if chrono::Timelike::nanosecond(&n) >= 1_000_000_000 { TsLit::Maybe(Some(us)) } else { TsLit::Exact(us) };
     }
     TsLit::No
 }
